@@ -57,6 +57,10 @@ func (w *wrapper) Invoke(ctx context.Context, method string, args any, reply any
 		return ErrMethodNotFound
 	}
 
+	if err := ctx.Err(); err != nil {
+		return err // as on a real connection, a call on a finished context is never started
+	}
+
 	ctx, clientServerStream, ss, cs := w.startStream(ctx, method)
 	go func() {
 		res, err := matched.Handler(w.srv, ctx, func(dst any) error {
@@ -99,6 +103,10 @@ func (w *wrapper) NewStream(ctx context.Context, desc *grpc.StreamDesc, method s
 
 	if matched.ServerStreams != desc.ServerStreams || matched.ClientStreams != desc.ClientStreams {
 		return nil, ErrMethodShape
+	}
+
+	if err := ctx.Err(); err != nil {
+		return nil, err // as on a real connection, a call on a finished context is never started
 	}
 
 	ctx, clientServerStream, ss, cs := w.startStream(ctx, method)
